@@ -23,6 +23,11 @@ BRIDGES = {
     "C09": ["Stage", "Develop"],
     "C11": ["Reseed"],
     "C16": ["Swim"],
+    "C15": ["Grid"],
+    "C13": ["Nk"],
+    "C04": ["Attr"],
+    "C03": ["Release"],
+    "C17": ["Release"],
     "C20": ["Mixing", "Seq"],
 }
 BRIDGE_THEOREMS = {
@@ -37,6 +42,11 @@ BRIDGE_THEOREMS = {
     "Develop": ["larvae_weight", "saithe_weight"],
     "Settle": ["sed_ustar", "mine_ustar", "sed_shear", "mine_shear", "sed_resuspend"],
     "Reseed": ["chem_reposition", "chem_coastal", "mine_reposition"],
+    "Grid": ["sample3D_weights", "sample3D_offsets", "sample3D_offsets_unit", "sample3D_weights_sum", "z2s_A", "horzdiff_smag",
+             "vertdiff_value"],
+    "Nk": ["nk_interp"],
+    "Attr": ["rel_gaussian", "rel_gaussian_model", "rel_exponential"],
+    "Release": ["rel_triangle_area", "rel_bary"],
     "Seq": ["lice_update", "sed_update_seq", "mine_update_seq", "chem_update_seq"],
 }
 
